@@ -47,3 +47,27 @@ for _ni, _tiers in ((0, ('quick', 'thorough')), (1, ('quick', 'thorough')), (2, 
              'getDefaultSpaceType() -> ESpaceType::RN (the default space the library defines when none was set)',
              'static enum items EConsElem::{UNKNOWN,RANGE,ANGLE,PARAM,SILL}, EConsType::{LOWER,DEFAULT,UPPER,EQUAL}, ESpaceType::{COMPOSITE,RN,SN}: _value written by hand in the solver build '
              '(static constructors are not executed); the native build aborts if the library values differ'])
+
+
+# ---------------------------------------------------------------- C17.f (builder2: option flags -> list of parameters the optimiser may move)
+_OPTTUS = ['src/Enum/Enums.cpp', 'src/Model/Option_VarioFit.cpp', 'src/Covariances/CovAniso.cpp', 'src/Basic/AStringable.cpp', 'src/Basic/Utilities.cpp']
+for _nc, _nd, _nv, _tiers in ((2, 2, 1, ('quick', 'thorough')), (2, 3, 1, ('quick', 'thorough')), (2, 3, 2, ('quick', 'thorough')), (3, 3, 2, ('thorough',)), (3, 2, 1, ('thorough',))):
+    K('C17.f.%d%d%d' % (_nc, _nd, _nv), property='C17', engine='symex', harness='C17/optvar.cpp', entry='k_parid_options', tus=_OPTTUS,
+      defines={'all': {'VF_NCOV': _nc, 'VF_NDIM': _nd, 'VF_NVAR': _nv}}, tiers=_tiers,
+      bounds={'quick': 'one model, %d basic structures, space dimension %d, %d variable(s); per structure flag_range in {-1,0,+1} and flag_param in {0,1}; every combination of '
+                       'flag_goulard_used, auth_aniso, auth_rotation, lock_samerot, lock_rot2d, lock_no3d, lock_iso2d; tapering on or off' % (_nc, _nd, _nv)},
+      timeout_ms={'quick': 120000, 'thorough': 600000}, validate={'quick': 30, 'thorough': 60},
+      what='st_parid_alloc (model_auto.cpp, included as a translation unit; builds strmod->parid) with the real st_parid_encode, Option_VarioFit copy / accessors, '
+           'Model::getDimensionNumber / getVariableNumber, CovAniso::getNVariables: every identifier of the list names a structure of the model and an element type of the fitting; '
+           'no SILL identifier when Goulard is used; auth_aniso = false => no RANGE identifier with ivar >= 1 and no ANGLE identifier; auth_rotation = false => no ANGLE identifier; '
+           'lock_samerot => ANGLE identifiers for one structure only; 3-D: lock_iso2d => no RANGE ivar 1, lock_no3d => no RANGE ivar 2, lock_rot2d => ANGLE ivar 0 only; '
+           'no RANGE / ANGLE for a structure without range, no PARAM without third parameter, T_RANGE only with tapering',
+      out='lock_iso2d in 2-D (st_parid_alloc does not consult it when ndim == 2: the second range stays a free parameter unless auth_aniso is false); the "clever setting" of the options '
+          '(st_alter_model_optvar, which overwrites lock_no3d / lock_iso2d in 3-D from the variogram directions); st_model_auto_strmod_define (copy of the locked rotation to the other '
+          'structures: CovAniso setters, Eigen); two simultaneous models; that the count of st_model_auto_count equals the length of the list; the optimiser',
+      assumptions=['CONGRUENCY keeps its initial value 50', 'Model and CovAniso objects are raw storage: Model::_cova -> raw CovAniso with the real vtable and _ctxt._nVar; StrMod really constructed'],
+      stubs=['ASpaceObject::getNDim -> the space dimension of the kernel (behind the inline Model::getDimensionNumber -> CovContext)',
+             'Model::getCovaNumber -> number of structures of the kernel; Model::getCovaType -> an ECov object whose value is the rank of the structure',
+             'Model::getCovMode -> EModelProperty::TAPE or NONE (symbolic)',
+             'model_cova_characteristics -> symbolic flag_range in {-1,0,1} and flag_param in {0,1} per structure; the other outputs are fixed values not read by st_parid_alloc',
+             'static enum items EConsElem::{RANGE,ANGLE,PARAM,SILL,T_RANGE}, EModelProperty::{NONE,TAPE}: _value written by hand in the solver build; the native build aborts if the library values differ'])
